@@ -55,6 +55,10 @@ type c13Case struct {
 	// handed to the log file. 2 = the store is opened the way csvimport -disable-wal-fsync opens it
 	// (OpenRelation(db, false)) and the statements reach it through the session object
 	LogWatch int `json:"log_watch,omitempty"`
+	// CloseDuringLast: while the last statement is held open, another goroutine closes the session - what
+	// the console's signal handler does on SIGINT / SIGTERM. The closing flush has to wait for the statement
+	// like every other flush.
+	CloseDuringLast bool `json:"close_during_last,omitempty"`
 }
 
 func c13Gen(rt *rapid.T) c13Case {
@@ -156,6 +160,13 @@ func c13Gen(rt *rapid.T) c13Case {
 			parks++
 		}
 		c.Steps = append(c.Steps, st)
+	}
+	if last := len(c.Steps) - 1; last >= 0 && c.Steps[last].Stmt != nil && c.Steps[last].Stmt.Kind != "create" && rapid.IntRange(0, 2).Draw(rt, "closeduringlast") == 0 {
+		c.CloseDuringLast = true
+		c.Steps[last].ParkMs, c.Steps[last].ParkEarly, c.Steps[last].IdleMs = 160, rapid.Bool().Draw(rt, "closeparkearly"), 0
+		if c.Steps[last].ParkAt == 0 {
+			c.Steps[last].ParkAt = 2
+		}
 	}
 	return c
 }
@@ -380,6 +391,18 @@ func c13Run(c c13Case, st *vlib.Stats) string {
 		}
 		atomic.StoreInt64(&parkMs, int64(step.ParkMs))
 		var err error
+		var closed chan error
+		if c.CloseDuringLast && i == len(c.Steps)-1 {
+			closed = make(chan error, 1)
+			sessObj := eng.Sess
+			go func() {
+				// (the console's shutdown handler: Session.Close on the signal goroutine)
+				for k := 0; k < 400 && atomic.LoadInt64(&parked) == 0 && atomic.LoadInt64(&didPark) == 0; k++ {
+					time.Sleep(5 * time.Millisecond)
+				}
+				closed <- sessObj.Close()
+			}()
+		}
 		if step.Stmt != nil {
 			err = eng.ExecStmt(*step.Stmt)
 		} else if step.Refused {
@@ -393,6 +416,31 @@ func c13Run(c c13Case, st *vlib.Stats) string {
 			_, err = eng.Query(step.Select)
 		}
 		atomic.StoreInt64(&parkMs, 0)
+		if closed != nil {
+			select {
+			case <-closed:
+			case <-time.After(20 * time.Second):
+				return fmt.Sprintf("step %d: Session.Close called from another goroutine while the statement was held open did not return within 20 s after the statement had ended", i)
+			}
+			st.Label("session-closed-from-another-goroutine-during-last-statement", 1)
+			if err != nil && strings.Contains(err.Error(), "closed") {
+				// Close closes the log before it waits for the statement: the statement then fails at its log
+				// append ('file already closed') - it was never acknowledged, and what the closing flush makes
+				// of its pages is not this property's subject (the flush did wait for the bracket, which is what
+				// the monitors check). The contents are not compared in that case.
+				st.Label("last-statement-failed-at-the-closed-log", 1)
+				err, stopped = nil, true
+			}
+			// the store is closed now: select the database again for the closing comparison
+			eng.Sess.RelationService, eng.Sess.CurDB = nil, ""
+			storage.VerifNoTimer = true
+			if e := eng.Exec("USE " + DBName); e != nil {
+				return "USE after the close failed: " + e.Error()
+			}
+			if c.Cache > 0 {
+				eng.RS().VerifSetCacheSize(c.Cache)
+			}
+		}
 		if err != nil {
 			if c.Cache > 0 && !errors.Is(err, storage.ErrLRUCacheFull) && eng.RS() != nil && len(eng.RS().VerifDirtyOffsets()) >= c.Cache-4 {
 				// the small cache is (all but) full of dirty pages: the statement's dirty set does not
@@ -412,7 +460,7 @@ func c13Run(c c13Case, st *vlib.Stats) string {
 			}
 			return fmt.Sprintf("step %d failed: %v", i, err)
 		}
-		if step.Stmt != nil {
+		if step.Stmt != nil && !stopped {
 			m.Apply(*step.Stmt)
 		}
 		// (1) no flusher event between two storage accesses of this statement
